@@ -821,6 +821,15 @@ func (w *World) APThrough(v ssa.Value) string { return w.apThrough(v, 0) }
 
 func (w *World) apThrough(v ssa.Value, depth int) string {
 	rv := w.Resolve(v)
+	resIdx := 0
+	if ex, isEx := rv.(*ssa.Extract); isEx {
+		// one result of a helper with several results (and one return statement)
+		if c2, isC := w.Resolve(ex.Tuple).(*ssa.Call); isC {
+			if _, isB := c2.Call.Value.(*ssa.Builtin); !isB {
+				rv, resIdx = c2, ex.Index
+			}
+		}
+	}
 	c, ok := rv.(*ssa.Call)
 	if !ok || depth > 2 {
 		return w.AP(v)
@@ -832,9 +841,9 @@ func (w *World) apThrough(v ssa.Value, depth int) string {
 	var ret ssa.Value
 	n := 0
 	allInstrs(h, func(in ssa.Instruction) {
-		if rt, ok := in.(*ssa.Return); ok && rt.Block() != h.Recover && len(rt.Results) == 1 {
+		if rt, ok := in.(*ssa.Return); ok && rt.Block() != h.Recover && len(rt.Results) > resIdx {
 			n++
-			ret = rt.Results[0]
+			ret = rt.Results[resIdx]
 		}
 	})
 	if n != 1 {
